@@ -233,17 +233,20 @@ chk("C05", "proof",
 
 chk("C02", "other",
     "PARTIAL. The property (for all documents, regenerate(parse d) = d) is NOT proved: it is a statement about the parser and the 5 000-line "
-    "regenerator, for which no faithful Coq model exists here. Proved (Coq, closed under the global context) are two global passes of the "
-    "regenerator as mechanism kernels: taking the pragma lines out of any document (any recogniser, either prefix) and putting them back the way "
+    "regenerator, for which no faithful Coq model exists here. Proved (Coq, closed under the global context) are three mechanism kernels. The "
+    "in-band marker codec of ParserHelper (Model/Codec.v, tied to eight ParserHelper functions on every string over the marker alphabet up to "
+    "length 4/5): for every text the parser can write - literal text without ESC, backslash escapes, replacements, empty replacements - "
+    "remove_all gives exactly the source text and resolve_all exactly the rendered text; refuted for a literal ESC before another control "
+    "character. And two global passes of the regenerator: taking the pragma lines out of any document (any recogniser, either prefix) and putting them back the way "
     "__handle_pragma_processing does returns the document, unless what is left is a single empty line (refuted with witness: known finding); the "
     "marker-character strip is the identity exactly on text without the three characters (refuted otherwise: known finding). The splice model is "
     "tied to the code by evaluating it against the regenerated text of every document of <= 4/5 lines over five line kinds. The property itself "
     "is decided by enumeration of the identity oracle over the C04 document spaces, multi-line inline elements with indented continuation lines "
     "in paragraphs/quotes/lists, delimiter runs and Unicode/control-character documents; 600+ failing inputs of the pinned tree are listed as "
     "known findings in nine groups.",
-    "Trusted: Coq kernel + vm_compute (kernels), direct parser/regenerator calls. Not modelled: the in-band marker codec of ParserHelper, the "
-    "per-token rehydrate handlers, TransformContainers.",
-    "Coq proofs of two regenerator kernels; identity oracle by enumeration (category 'other': the verdict for the property rests on enumeration)",
+    "Trusted: Coq kernel + vm_compute (kernels), direct parser/regenerator calls. Not modelled: the per-token rehydrate handlers, "
+    "TransformContainers. The codec model is structurally recursive where the code works on indices (equivalence checked exhaustively, not proved).",
+    "Coq proofs of three kernels (marker codec, pragma splice, marker strip); identity oracle by enumeration (category 'other': the verdict for the property rests on enumeration)",
     "DESIGN.md section 4 C02")
 
 chk("C01", "other",
